@@ -103,7 +103,7 @@ CONC = {
                 quick_episodes=350, thorough_episodes=4000,
                 rule=SLICE_DISP_RULE, trusted_base=TB_CONC,
                 assumptions=['"all processed, in queue order, after Resume / Restart" combines C03 (progress) and C04 (order) with C09_status_store_keeps_queues']),
-    'C01': dict(module='Properties.C01', file='Properties/C01.v', slices=['job', 'wake'],
+    'C01': dict(module='Properties.C01', file='Properties/C01.v', slices=['job', 'wake', 'pool'],
                 families=['burst', 'lifecycle', 'cancel', 'batch', 'saturate', 'persist', 'recover', 'dist', 'multiq', 'pool', 'order'],
                 quick_episodes=150, thorough_episodes=2000, crash_props=['C03'],
                 native=dict(scenarios=['bigburst'], rounds=1, thorough_rounds=1),
@@ -112,7 +112,7 @@ CONC = {
                 rule=SLICE_JOB_RULE + '; plus the queue differential test of C04 (an element accepted by a queue is handed out exactly once)', trusted_base=TB_CONC,
                 assumptions=['job-level theorem: each enqueued job is handed out by its queue at most once (Fifo/Heap refinement theorems, C04) and each payload sent to a pool node is received at most once (channel semantics)',
                              '"eventually runs" is the progress property C03; identity of ID/data: monitors + C12']),
-    'C03': dict(module='Properties.C03', file='Properties/C03.v', slices=['wake', 'batch', 'lock'],
+    'C03': dict(module='Properties.C03', file='Properties/C03.v', slices=['wake', 'batch', 'lock', 'pool'],
                 families=['burst', 'lifecycle', 'cancel', 'saturate', 'pool', 'persist', 'recover', 'multiq', 'batch', 'order', 'staleloop'],
                 quick_episodes=150, thorough_episodes=2000, crash_props=['C03'],
                 native=dict(scenarios=['bigburst', 'bigbatch'], rounds=1, thorough_rounds=1),
@@ -127,7 +127,7 @@ CONC = {
                              'every call of the worker function returns (the property\'s own hypothesis)',
                              'distributed queues: the adapter delivers an "enqueued" notification per accepted item (adapter contract; family dist monitors the drain)',
                              '"no job left Processing without a goroutine" (a payload sent to a pool node has a live server): monitored (never-ran / stuck-goroutine), rests on the idle list\'s Remove result being the ownership transfer']),
-    'C05': dict(module='Properties.C05', file='Properties/C05.v', slices=['job'],
+    'C05': dict(module='Properties.C05', file='Properties/C05.v', slices=['job', 'wake'],
                 families=['burst', 'lifecycle', 'cancel', 'batch', 'readers'],
                 quick_episodes=250, thorough_episodes=3000,
                 native=dict(scenarios=['bigbatch'], rounds=1, thorough_rounds=1),
